@@ -81,15 +81,13 @@ theorem ignored_bits_row (c : Bool) (f : Format) (row : Row) (w0 w0' : Nat) (w1?
     (hw0' : w0' < 2 ^ 32) (hw1' : ∀ w1, w1'? = some w1 → w1 < 2 ^ 32)
     (hhit : w0 / 2 ^ shiftOf f = f.encoding / 2 ^ shiftOf f) (hop : extractBits w0 f.opLo f.opHi = row.opcode)
     (hhit' : w0' / 2 ^ shiftOf f = f.encoding / 2 ^ shiftOf f) (hop' : extractBits w0' f.opLo f.opHi = row.opcode)
-    (h30 : f.ft = FT_VOP2 → extractBits w0 0 8 = 249 → ∀ w1, w1? = some w1 → extractBits w1 30 30 = 0)
-    (h30' : f.ft = FT_VOP2 → extractBits w0' 0 8 = 249 → ∀ w1, w1'? = some w1 → extractBits w1 30 30 = 0)
     (h : decodeRow c f row w0 w1? = .ok i) (h' : decodeRow c f row w0' w1'? = .ok i') :
     i = i' ↔ normRow c f.ft row w0 w1? = normRow c f.ft row w0' w1'? := by
   constructor
   · intro e
     subst e
-    obtain ⟨a1, a2⟩ := desc_row c f row w0 w1? i hfm h13 hw0 hw1 hhit hop h30 h
-    obtain ⟨b1, b2⟩ := desc_row c f row w0' w1'? i hfm h13 hw0' hw1' hhit' hop' h30' h'
+    obtain ⟨a1, a2⟩ := desc_row c f row w0 w1? i hfm h13 hw0 hw1 hhit hop h
+    obtain ⟨b1, b2⟩ := desc_row c f row w0' w1'? i hfm h13 hw0' hw1' hhit' hop' h'
     exact Prod.ext (a1.symm.trans b1) (a2.symm.trans b2)
   · intro e
     have a := norm_row c f row w0 w1? hfm h13 hw0 hw1
